@@ -1111,8 +1111,11 @@ def normaliser_values(prog, rep, R):
     # keywords: lower-casing of the token's own text, on Keyword tokens only
     kw = [b for b in prog.bodies.values() if b.npath.endswith("LowercaseKeywords as pasfmt_core::traits::LogicalLineFileFormatter>::format")]
     if rep.check(len(kw) == 1, R, "anchor:LowercaseKeywords::format", "LowercaseKeywords::format not found"):
-        b = kw[0]
-        for c in b.calls_to(SET_CONTENT):
+        from util import family_bodies as _fb
+        nset = 0
+        for b, _anchor, _chain in _fb(prog, kw[0]):
+          for c in b.calls_to(SET_CONTENT):
+            nset += 1
             val = canon(b, c.args[1])
             fx = [f for f in dominating_variant_facts(prog, b, c.bb) if "get_token_type(" in f[0]]
             only_kw = any(f[1] == "is" and f[2] and f[2][0] == "Keyword" for f in fx)
@@ -1127,9 +1130,11 @@ def normaliser_values(prog, rep, R):
                     for g in gets:
                         gsite = [s for s in b.calls() if s.bb == g[1]][0]
                         o1, o2 = og.of_operand(gsite.args[0]), og.of_operand(c.args[0])
-                        same_tok = o1 == o2 and len(o1) == 1 and all(x[0] == "call" and x[2].endswith("::next") for x in o1)
+                        # the same token: the element of the traversal, or the token parameter of the extracted per-token step
+                        same_tok = o1 == o2 and len(o1) == 1 and all((x[0] == "call" and x[2].endswith("::next")) or x[0] == "param" for x in o1)
             rep.check(only_kw and same_tok, R, "keyword-lowercase", "LowercaseKeywords replaces text with %s under %s (expected to_ascii_lowercase of the same token's text, on Keyword tokens)" % (val, fx), where=c.where(),
                       instance={"value": "to_ascii_lowercase(own text)", "token_types": "Keyword"})
+        rep.floor(R, "set_content sites of the keyword normaliser", nset, 1)
     # comments / directives: each helper is reached only for its own token kinds
     cf = [b for b in prog.bodies.values() if b.npath.endswith("CommentFormatter as pasfmt_core::traits::LogicalLineFileFormatter>::format")]
     if rep.check(len(cf) == 1, R, "anchor:CommentFormatter::format", "CommentFormatter::format not found"):
@@ -1139,7 +1144,33 @@ def normaliser_values(prog, rep, R):
             sites = [c for c in b.calls() if (c.callee or "").endswith("comment_contents::" + helper)]
             good = len(sites) == 1
             seen = None
-            if good:
+            if not good:
+                # the dispatch extracted into a function / closure of the formatter's family: its decision table says for which kinds the
+                # helper is called (boolean helpers such as CommentKind::is_singleline expanded)
+                from util import family_bodies
+                from table import Table as _T, TooComplex as _TC
+                for d_body, _anchor, _chain in family_bodies(prog, b):
+                    if d_body is b or not any((c.callee or "").endswith("comment_contents::" + helper) for c in d_body.calls()):
+                        continue
+                    try:
+                        td = _T(prog, d_body, inline=1, opaque=tuple(want))
+                    except _TC:
+                        continue
+                    o, i = set(), set()
+                    for (cons, res), calls in zip(td.rows, td.calls):
+                        if not any(n.endswith("comment_contents::" + helper) for n, _a in calls):
+                            continue
+                        for c in cons:
+                            if c[0] in ("is", "in") and ("token_type" in str(c[1])):
+                                vals = {c[2]} if c[0] == "is" else set(c[2])
+                                if "@Comment" in str(c[1]):
+                                    i |= vals
+                                elif "@" not in str(c[1]).split("token_type")[-1]:
+                                    o |= vals
+                    seen = (sorted(o), sorted(i))
+                    good = o == outer and (inner is None or i == inner)
+                    break
+            elif good:
                 fx = dominating_variant_facts(prog, b, sites[0].bb)
                 o = set()
                 i = set()
